@@ -598,7 +598,7 @@ fn cfg_for(input: &[u8], rng: &mut SplitMix) -> DecCfg {
 }
 
 fn mutations(ctx: &Ctx) -> Stats {
-    let frames_per_shard = ctx.tier.pick(200usize, 2_000);
+    let frames_per_shard = ctx.tier.pick(600usize, 4_000);
     let muts_per_frame = ctx.tier.pick(30usize, 300);
     par_shards(WORKERS, |shard| {
         let mut st = Stats::default();
